@@ -151,10 +151,26 @@ func (x *Exec) applyGhostSets(st *State, c *Contract, args []SVal, sig *types.Si
 				v = ec.coerceConst(v, x.ghostDecl[cl.Exprs[0].Name])
 			}
 			st.ghost[cl.Exprs[0].Name] = v.V
+			x.ghostBound(st, cl.Exprs[0].Name)
 		}); err != nil {
 			x.contractError(err)
 		}
 	}
+}
+
+// ghostBound: integer ghost variables (event counters, stream positions) are assumed not to overflow:
+// they stay within (-2^62, 2^62).  This is an assumption about ghost bookkeeping, never about program variables.
+func (x *Exec) ghostBound(st *State, name string) {
+	t, ok := st.ghost[name].(*Term)
+	if !ok || t.sort != BV(64) {
+		return
+	}
+	if _, _, isInt := isInteger(x.ghostDecl[name]); !isInt {
+		return
+	}
+	lim := new(big.Int).Lsh(big.NewInt(1), 62)
+	st.Assume(x.tb.BVCmp("bvslt", t, x.tb.BVc(64, lim)))
+	st.Assume(x.tb.BVCmp("bvslt", x.tb.BVc(64, new(big.Int).Neg(lim)), t))
 }
 
 func (x *Exec) havocResult(st *State, res *types.Tuple, hint string) SVal {
@@ -435,6 +451,7 @@ func (x *Exec) applyAliases(fr *Frame, st, pre *State, c *Contract, aliases []*C
 				specFail("ghostset of undeclared ghost %s", name)
 			}
 			st.ghost[name] = v.V
+			x.ghostBound(st, name)
 		}); err != nil {
 			x.contractError(err)
 			return
@@ -726,6 +743,15 @@ func (x *Exec) havocLoopMem(fr *Frame, b *ssa.BasicBlock, ord int, lc *LoopContr
 	for _, m := range lc.Modifies {
 		for _, me := range m.Exprs {
 			me := me
+			if me.Op == "ident" {
+				if gt, isGhost := x.ghostDecl[me.Name]; isGhost {
+					if _, local := fr.ghostLocal[me.Name]; !local {
+						st.ghost[me.Name] = x.symbolic(st, gt, fmt.Sprintf("ghost.%s!L%d", me.Name, ord), false, 0)
+						x.ghostBound(st, me.Name)
+						continue
+					}
+				}
+			}
 			if err := x.guard(fmt.Sprintf("%s:%d loop modifies", m.File, m.Line), func() {
 				ec := x.loopCtx(fr, b, st, false)
 				x.havocLoc(st, ec.Eval(me), fmt.Sprintf("L%d", ord))
@@ -747,12 +773,40 @@ func (x *Exec) checkLoopFrame(fr *Frame, b *ssa.BasicBlock, ord int, lc *LoopCon
 		for _, m := range lc.Modifies {
 			for _, me := range m.Exprs {
 				me := me
+				if me.Op == "ident" {
+					if _, isGhost := x.ghostDecl[me.Name]; isGhost {
+						continue
+					}
+				}
 				_ = x.guard("loop modifies", func() {
 					ec := x.loopCtx(fr, b, st, false)
 					if o := objOf(ec.Eval(me).V); o != nil {
 						modified[o] = true
 					}
 				})
+			}
+		}
+	}
+	if gs := fr.loopGhostPre[ord]; gs != nil {
+		listed := map[string]bool{}
+		if lc != nil {
+			for _, m := range lc.Modifies {
+				for _, me := range m.Exprs {
+					if me.Op == "ident" {
+						listed[me.Name] = true
+					}
+				}
+			}
+		}
+		for name, v0 := range gs {
+			if listed[name] || strings.HasPrefix(name, "sb:") {
+				continue
+			}
+			if v1, ok := st.ghost[name]; ok && v1 != v0 {
+				g := x.svalEq(v0, v1)
+				if !g.IsTrue() {
+					x.addObl(st, fmt.Sprintf("%s/loop%d/frame(ghost %s is changed by the loop body but not listed in its modifies clause)", x.prog.FuncKey(fr.fn), ord, name), "frame", g, token.NoPos, nil)
+				}
 			}
 		}
 	}
